@@ -318,6 +318,7 @@ class Interp:
     async def op_CANCEL(self, act, pc, task, token=None):
         t = self.ctx.tasks[task]
         self.ctx.cancel_requests.append((task, token, None, t.status))
+        self.ctx.rec('inject', task, ('cancel',), {'token': token, 'status': t.status, 'k': None, 'by': act})
         if token is None:
             t.cancel()
         else:
